@@ -115,7 +115,11 @@ func (r *Result) JSON() resultJSON {
 		}
 		d[e.k] = e.v
 	}
-	return resultJSON{r.Stream, r.Rule, r.Evaluations, r.NumNontrivial(), d, r.Samples, r.Failures}
+	fs := r.Failures
+	if fs == nil {
+		fs = []Failure{}
+	}
+	return resultJSON{r.Stream, r.Rule, r.Evaluations, r.NumNontrivial(), d, r.Samples, fs}
 }
 
 func writeJSON(path string, v any) error {
